@@ -432,3 +432,8 @@ Fixpoint pct_decode (s : str) : str :=
 
 (* the host name an RFC reader hands to name resolution: brackets off, percent-decoded *)
 Definition rfc_hostname (h : str) : str := pct_decode (strip_brackets h).
+
+(* vocabulary used in theorem statements *)
+Definition c_bslash : N := 92.                      (* backslash *)
+Definition byte_ok (c : N) : bool := c <? 256.      (* the element really is a byte *)
+Definition ascii (c : N) : bool := c <? 128.
